@@ -83,10 +83,17 @@ func (s c02Scn) String() string {
 }
 
 func (s c02Scn) nvol() int {
-	if s.Layout == "w" {
+	if s.Layout == "w" || s.Layout == "F" {
 		return 1
 	}
 	return 2
+}
+
+// full: the volume is marked full (the <root>/full symlink keepstore itself creates when free space
+// runs out; its timestamp lies in the future, so it counts as recent under every clock).
+// Layouts F (one writable volume, full), Fw / wF (two writable volumes, the first / second full).
+func (s c02Scn) full(p int) bool {
+	return s.Layout == "F" || (s.Layout == "Fw" && p == 0) || (s.Layout == "wF" && p == 1)
 }
 
 func (s c02Scn) readOnly(p int) bool { return s.Layout == "rw" && p == 0 }
@@ -151,6 +158,9 @@ func (s c02Scn) setup(base string, B []byte, H string) []string {
 	for p := 0; p < s.nvol(); p++ {
 		root := filepath.Join(base, fmt.Sprintf("v%d", p))
 		c02Must(os.MkdirAll(root, 0755))
+		if s.full(p) {
+			c02Must(os.Symlink("4102444800", filepath.Join(root, "full")))
+		}
 		roots = append(roots, root)
 	}
 	if s.Prev != "absent" {
@@ -653,6 +663,17 @@ func c02Scenarios() []c02Scn {
 			}
 		}
 	}
+	// full volumes: the PUT must be refused or stored elsewhere; acknowledged means retrievable
+	for _, layout := range []string{"F", "Fw", "wF"} {
+		for _, prev := range []string{"absent", "intact", "flip"} {
+			for _, size := range []int{1, 40 * 1024} {
+				if size != 1 && !vrep.Thorough() && layout != "Fw" {
+					continue
+				}
+				out = append(out, c02Scn{Size: size, Prev: prev, Layout: layout, Serialize: false})
+			}
+		}
+	}
 	return out
 }
 
@@ -990,7 +1011,7 @@ func c02SharedRun(r *vrep.Report, base string, c c02Shared) (int, int64) {
 		// a pool of its own per execution (small buffers: the blocks have 5 bytes), so that nothing
 		// an execution did to the pool reaches the next one
 		bufs = newBufferPool(c02Quiet, 2, 64)
-		if c.XGet || c.YGet {
+		if c.XGet || c.YGet || c.Prelude == "get404" {
 			// a GET asks the pool for a whole BlockSize buffer: hand out preallocated ones (their
 			// first bytes cleared, so that every execution starts from the same memory contents)
 			for len(c02BigBufs) < 4 {
